@@ -134,6 +134,15 @@ def evaluate(x, M, shift=None, volume=True, deep=True):
         except Exception as e:  # noqa: BLE001
             viols.append((f'positions-after-volume-raise-{type(e).__name__}', str(e)))
     key = (p1.tobytes(), d.tobytes())
+    if T >= 2:
+        try:
+            tsl = concretise.make_trajectory(x.copy(), species, M, time_step=1e-15)
+            tsl.displacements
+            part = np.array(tsl[1:].positions)
+            if part.shape != x[1:].shape or not circ_close(part, x[1:]):
+                viols.append(('slice-of-displacement-mode-trajectory-wrong', f'got {part.reshape(-1, 3).tolist()} expected {np.mod(x[1:], 1).reshape(-1, 3).tolist()}'))
+        except Exception as e:  # noqa: BLE001
+            viols.append((f'slice-raise-{type(e).__name__}', str(e)))
     if deep and T >= 2:
         # a queried object that is then extended in place must answer for the whole trajectory
         try:
